@@ -316,6 +316,11 @@ class TreeSim(taps.Sim):
             elif not self._was_bankrupt:
                 self.bankrupt_at = self.model.t
                 self.fire("bankruptcy")
+                # clean: every position in the whole tree is closed by the liquidation
+                for n in root.members:
+                    if not hasattr(n, "capital") and abs(n.position) >= TOL:
+                        self.violation("bankrupt_residual", "after the bankruptcy liquidation on %s %s still holds %r" % (date, n.full_name, n.position), {"nested": n.parent is not root, "integer": bool(n.integer_positions)})
+                        break
         elif v > self._upd_tol:
             if root.bankrupt and not self._was_bankrupt:
                 self.violation("bankrupt_spurious", "flagged bankrupt at an update on %s although root value is %r" % (date, v))
